@@ -34,6 +34,7 @@ func runC18(c *Ctx) {
 	} else {
 		r.Violate("recover-barrier", "handleMessage", p.FnPos(srv), "message dispatch is not protected by a deferred recover(): one panicking handler terminates the server")
 	}
+	c18RunExits(c, p, run)
 	// R2 who-may-call
 	senders := map[*ssa.Function]bool{}
 	for _, n := range []string{"sendResult", "sendError"} {
